@@ -1,5 +1,6 @@
 import WzVerif.Model.RequestBody
 import WzVerif.Lemmas.RequestAttrs
+import WzVerif.Lemmas.MultipartSafe
 set_option linter.unusedSimpArgs false
 namespace Wz.Req
 open Wz Wz.Http
@@ -92,64 +93,71 @@ theorem urlencodedRead_error (m cl : Option Nat) (sched : List Nat) (body : Byte
     · simp at h; exact h.symm
     · exact boundedLoop_error _ _ _ _ _ e h
 
-theorem parseUrlencodedBody_raises (cfg : BodyCfg) (cl : Option Nat) (w : Wire) :
-    RaisesOnly (fun e => isValueError e = true ∨ Http e) (parseUrlencodedBody cfg cl w) := by
-  intro e h
-  unfold parseUrlencodedBody at h
-  split at h
-  · next e' he =>
-    cases h
-    right
-    rw [urlencodedRead_error _ _ _ _ _ he]; exact http_retl
-  · split at h
-    · cases h; right; exact http_disc
-    · split at h
-      · cases h; left; exact valueError_unicodeDecode
-      · cases h
-
-/-! ### the dispatch -/
+/-! ### the dispatch (hypotheses) -/
 
 /-- the hypothesis on the multipart parser (C01/C02/C10): nothing but ValueError (and subclasses)
 or an HTTP exception (413, client disconnect) leaves `MultiPartParser.parse` -/
 def MultipartRaisesOnly (bx : BodyExt) : Prop :=
   ∀ b cfg w, RaisesOnly (fun e => isValueError e = true ∨ Http e) (bx.mp b cfg w)
 
+/-- the same with a larger set `P ⊇ Http` of exceptions that may pass (used to carry a model-only
+error value of the multipart model through the glue) -/
+def MultipartRaisesOnlyP (P : String → Prop) (bx : BodyExt) : Prop :=
+  ∀ b cfg w, RaisesOnly (fun e => isValueError e = true ∨ P e) (bx.mp b cfg w)
+
 /-- the hypothesis on `json.loads`: ValueError (JSONDecodeError, UnicodeDecodeError) only -/
 def JsonRaisesOnly (bx : BodyExt) : Prop := ∀ bs, RaisesOnly (fun e => isValueError e = true) (bx.jl bs)
 
-theorem asciiEnc_raises (s : Str) : RaisesOnly (fun e => isValueError e = true ∨ Http e) (asciiEnc s) := by
+theorem parseUrlencodedBody_raises (P : String → Prop) (hP : ∀ e, Http e → P e) (cfg : BodyCfg) (cl : Option Nat) (w : Wire) :
+    RaisesOnly (fun e => isValueError e = true ∨ P e) (parseUrlencodedBody cfg cl w) := by
+  intro e h
+  unfold parseUrlencodedBody at h
+  split at h
+  · next e' he =>
+    cases h
+    right
+    rw [urlencodedRead_error _ _ _ _ _ he]; exact hP _ http_retl
+  · split at h
+    · cases h; right; exact hP _ http_disc
+    · split at h
+      · cases h; left; exact valueError_unicodeDecode
+      · cases h
+
+/-! ### the dispatch -/
+
+theorem asciiEnc_raises (P : String → Prop) (s : Str) : RaisesOnly (fun e => isValueError e = true ∨ P e) (asciiEnc s) := by
   intro e h
   unfold asciiEnc at h
   split at h
   · cases h
   · cases h; left; exact valueError_unicodeEncode
 
-theorem parseMultipart_raises (bx : BodyExt) (hmp : MultipartRaisesOnly bx) (cfg : BodyCfg) (options : Dict Str) (w : Wire) :
-    RaisesOnly (fun e => isValueError e = true ∨ Http e) (parseMultipart bx cfg options w) := by
+theorem parseMultipart_raises (P : String → Prop) (hP : ∀ e, Http e → P e) (bx : BodyExt) (hmp : MultipartRaisesOnlyP P bx) (cfg : BodyCfg) (options : Dict Str) (w : Wire) :
+    RaisesOnly (fun e => isValueError e = true ∨ P e) (parseMultipart bx cfg options w) := by
   unfold parseMultipart
-  refine raisesOnly_bind (asciiEnc_raises _) (fun b => ?_)
+  refine raisesOnly_bind (asciiEnc_raises P _) (fun b => ?_)
   
   split
   · exact raisesOnly_error (Or.inl valueError_self)
   · exact hmp b cfg w
 
-theorem formDataParse_raises (bx : BodyExt) (hmp : MultipartRaisesOnly bx) (cfg : BodyCfg) (mt : Str) (cl : Option Nat)
-    (options : Dict Str) (w : Wire) : RaisesOnly Http (formDataParse bx cfg mt cl options w) := by
+theorem formDataParse_raises (P : String → Prop) (hP : ∀ e, Http e → P e) (bx : BodyExt) (hmp : MultipartRaisesOnlyP P bx) (cfg : BodyCfg) (mt : Str) (cl : Option Nat)
+    (options : Dict Str) (w : Wire) : RaisesOnly P (formDataParse bx cfg mt cl options w) := by
   unfold formDataParse
   rw [parseCaught_eq]
   split
-  · exact tryExcept_raisesOnly _ _ (parseMultipart_raises bx hmp cfg options w)
+  · exact tryExcept_raisesOnly _ _ (parseMultipart_raises P hP bx hmp cfg options w)
   · split
-    · exact tryExcept_raisesOnly _ _ (parseUrlencodedBody_raises cfg cl w)
+    · exact tryExcept_raisesOnly _ _ (parseUrlencodedBody_raises P hP cfg cl w)
     · exact raisesOnly_ok _
 
-theorem streamOutcome_raises (cfg : BodyCfg) (e : Env) : RaisesOnly Http (streamOutcome cfg e) := by
+theorem streamOutcome_raises (P : String → Prop) (hP : ∀ e, Http e → P e) (cfg : BodyCfg) (e : Env) : RaisesOnly P (streamOutcome cfg e) := by
   unfold streamOutcome
   refine raisesOnly_bind (raisesOnly_of_safe (getContentLength_safe _ _)) (fun cl => ?_)
   
   split
   · split
-    · exact raisesOnly_error http_retl
+    · exact raisesOnly_error (hP _ http_retl)
     · exact raisesOnly_ok _
   · exact raisesOnly_ok _
 
@@ -157,10 +165,10 @@ theorem mimetype_safe (e : Env) : Safe (mimetype e) := safe_map _ (parseOptionsH
 theorem mimetypeParams_safe (e : Env) : Safe (mimetypeParams e) := safe_map _ (parseOptionsHeader_safe _)
 theorem isJson_safe (e : Env) : Safe (isJson e) := safe_map _ (mimetype_safe e)
 
-theorem loadFormData_raises (bx : BodyExt) (hmp : MultipartRaisesOnly bx) (cfg : BodyCfg) (e : Env) (w : Wire) :
-    RaisesOnly Http (loadFormData bx cfg e w) := by
+theorem loadFormData_raises (P : String → Prop) (hP : ∀ e, Http e → P e) (bx : BodyExt) (hmp : MultipartRaisesOnlyP P bx) (cfg : BodyCfg) (e : Env) (w : Wire) :
+    RaisesOnly P (loadFormData bx cfg e w) := by
   unfold loadFormData
-  refine raisesOnly_bind (streamOutcome_raises cfg e) (fun _ => ?_)
+  refine raisesOnly_bind (streamOutcome_raises P hP cfg e) (fun _ => ?_)
   
   split
   · refine raisesOnly_bind (raisesOnly_of_safe (mimetype_safe e)) (fun mt => ?_)
@@ -169,51 +177,51 @@ theorem loadFormData_raises (bx : BodyExt) (hmp : MultipartRaisesOnly bx) (cfg :
     
     refine raisesOnly_bind (raisesOnly_of_safe (mimetypeParams_safe e)) (fun ps => ?_)
     
-    exact formDataParse_raises bx hmp cfg mt _ ps w
+    exact formDataParse_raises P hP bx hmp cfg mt _ ps w
   · exact raisesOnly_ok _
 
-theorem readAll_raises (w : Wire) : RaisesOnly Http (readAll w) := by
+theorem readAll_raises (P : String → Prop) (hP : ∀ e, Http e → P e) (w : Wire) : RaisesOnly P (readAll w) := by
   unfold readAll
   split
-  · exact raisesOnly_error http_disc
+  · exact raisesOnly_error (hP _ http_disc)
   · exact raisesOnly_ok _
 
-theorem getData_raises (cfg : BodyCfg) (e : Env) (w : Wire) : RaisesOnly Http (getData cfg e w) := by
+theorem getData_raises (P : String → Prop) (hP : ∀ e, Http e → P e) (cfg : BodyCfg) (e : Env) (w : Wire) : RaisesOnly P (getData cfg e w) := by
   unfold getData
-  exact raisesOnly_bind (streamOutcome_raises cfg e) (fun _ => readAll_raises w)
+  exact raisesOnly_bind (streamOutcome_raises P hP cfg e) (fun _ => readAll_raises P hP w)
 
 /-- every body attribute: a value or an HTTP exception -/
-theorem bodyOutcome_raises (bx : BodyExt) (hmp : MultipartRaisesOnly bx) (hjl : JsonRaisesOnly bx) (cfg : BodyCfg)
+theorem bodyOutcome_raisesP (P : String → Prop) (hP : ∀ e, Http e → P e) (bx : BodyExt) (hmp : MultipartRaisesOnlyP P bx) (hjl : JsonRaisesOnly bx) (cfg : BodyCfg)
     (e : Env) (method : Str) (w : Wire) (a : BodyAttr) (hq : Latin1 e.queryString = true) :
-    RaisesOnly Http (bodyOutcome bx cfg e method w a) := by
+    RaisesOnly P (bodyOutcome bx cfg e method w a) := by
   cases a with
-  | form => exact raisesOnly_map _ (loadFormData_raises bx hmp cfg e w)
-  | files => exact raisesOnly_map _ (loadFormData_raises bx hmp cfg e w)
+  | form => exact raisesOnly_map _ (loadFormData_raises P hP bx hmp cfg e w)
+  | files => exact raisesOnly_map _ (loadFormData_raises P hP bx hmp cfg e w)
   | values =>
     simp only [bodyOutcome]
     refine raisesOnly_bind (raisesOnly_of_safe (args_safe e hq)) (fun _ => ?_)
     
     split
-    · refine raisesOnly_bind (loadFormData_raises bx hmp cfg e w) (fun _ => ?_)
+    · refine raisesOnly_bind (loadFormData_raises P hP bx hmp cfg e w) (fun _ => ?_)
       exact raisesOnly_ok _
     · exact raisesOnly_ok _
   | data =>
     simp only [bodyOutcome]
-    refine raisesOnly_bind (loadFormData_raises bx hmp cfg e w) (fun _ => ?_)
+    refine raisesOnly_bind (loadFormData_raises P hP bx hmp cfg e w) (fun _ => ?_)
     
     split
-    · exact raisesOnly_error http_disc
+    · exact raisesOnly_error (hP _ http_disc)
     · exact raisesOnly_ok _
-  | getData => exact raisesOnly_map _ (getData_raises cfg e w)
+  | getData => exact raisesOnly_map _ (getData_raises P hP cfg e w)
   | json =>
     simp only [bodyOutcome]
     refine raisesOnly_bind (raisesOnly_of_safe (isJson_safe e)) (fun j => ?_)
     
     cases j with
-    | false => exact raisesOnly_error http_unsupported
+    | false => exact raisesOnly_error (hP _ http_unsupported)
     | true =>
       simp only [Bool.not_true, Bool.false_eq_true, if_false]
-      refine raisesOnly_bind (getData_raises cfg e w) (fun data => ?_)
+      refine raisesOnly_bind (getData_raises P hP cfg e w) (fun data => ?_)
       
       rw [jsonCaught_eq]
       cases hj : bx.jl data with
@@ -221,7 +229,7 @@ theorem bodyOutcome_raises (bx : BodyExt) (hmp : MultipartRaisesOnly bx) (hjl : 
       | error x =>
         have hv := hjl data x hj
         simp only [caught_of_valueError x hv, if_true]
-        exact raisesOnly_error http_badRequest
+        exact raisesOnly_error (hP _ http_badRequest)
   | getJsonSilent =>
     simp only [bodyOutcome]
     refine raisesOnly_bind (raisesOnly_of_safe (isJson_safe e)) (fun j => ?_)
@@ -230,11 +238,72 @@ theorem bodyOutcome_raises (bx : BodyExt) (hmp : MultipartRaisesOnly bx) (hjl : 
     | false => exact raisesOnly_ok _
     | true =>
       simp only [Bool.not_true, Bool.false_eq_true, if_false]
-      refine raisesOnly_bind (getData_raises cfg e w) (fun data => ?_)
+      refine raisesOnly_bind (getData_raises P hP cfg e w) (fun data => ?_)
       
       rw [jsonCaught_eq]
       exact tryExcept_raisesOnly _ _ (raisesOnly_mono (hjl data) (fun e h => Or.inl h))
-  | stream => exact streamOutcome_raises cfg e
+  | stream => exact streamOutcome_raises P hP cfg e
   | wantFormDataParsed => exact raisesOnly_ok _
+
+
+/-- every body attribute: a value or an HTTP exception -/
+theorem bodyOutcome_raises (bx : BodyExt) (hmp : MultipartRaisesOnly bx) (hjl : JsonRaisesOnly bx) (cfg : BodyCfg)
+    (e : Env) (method : Str) (w : Wire) (a : BodyAttr) (hq : Latin1 e.queryString = true) :
+    RaisesOnly Http (bodyOutcome bx cfg e method w a) :=
+  bodyOutcome_raisesP Http (fun _ h => h) bx hmp hjl cfg e method w a hq
+
+/-! ### the multipart branch instantiated with C01/C02/C10's model -/
+
+/-- the exception classes of the multipart model: ValueError (missing / malformed part headers, data
+after the end), UnicodeDecodeError (part headers), 413 (limits) - and the model-only value `UNMODELLED`
+(an RFC 2231 `name*=` part parameter, which C01's option-header model does not interpret) -/
+def mpAllowed : List String := ["ValueError", "UnicodeDecodeError", "RequestEntityTooLarge", "UNMODELLED"]
+
+/-- what has to hold of C01/C02/C10's `formParse` / `formLoop` started from a fresh decoder -/
+def MultipartModelRaises : Prop :=
+  (∀ bnd mm mp bs sched body e, Wz.Multipart.formParse bnd mm mp bs sched body = .error e → e ∈ mpAllowed) ∧
+  (∀ bnd mm mp cs e, Wz.Multipart.formLoop mm (Wz.Multipart.mkDecoder bnd mm mp) {} cs = .error e → e ∈ mpAllowed)
+
+/-- an HTTP exception, or the model-only value -/
+def HttpOrUnmodelled (e : String) : Prop := Http e ∨ e = "UNMODELLED"
+
+theorem mpAllowed_ok (e : String) (h : e ∈ mpAllowed) : isValueError e = true ∨ HttpOrUnmodelled e := by
+  simp only [mpAllowed, List.mem_cons, List.mem_nil_iff, or_false] at h
+  rcases h with rfl | rfl | rfl | rfl
+  · left; decide
+  · left; decide
+  · right; left; decide
+  · right; right; rfl
+
+theorem mpModel_raises (hm : MultipartModelRaises) (jl : Bytes → Except String Unit) :
+    MultipartRaisesOnlyP HttpOrUnmodelled ⟨mpModel, jl⟩ := by
+  intro b cfg w e he
+  simp only at he
+  unfold mpModel at he
+  simp only at he
+  split at he
+  · split at he
+    · next e' hl =>
+      cases he
+      exact mpAllowed_ok _ (hm.2 _ _ _ _ _ hl)
+    · cases he; right; left; exact http_disc
+  · split at he
+    · next e' hl =>
+      cases he
+      exact mpAllowed_ok _ (hm.1 _ _ _ _ _ _ _ hl)
+    · cases he
+
+theorem raisable_allowed {e : String} (h : Wz.Multipart.Raisable e) : e ∈ mpAllowed := by
+  rcases h with rfl | rfl | rfl | rfl <;> simp [mpAllowed]
+
+/-- the exception set of C01/C02/C10's multipart model, proved in that slice
+(Lemmas/MultipartSafe.lean: `formParse_raises`, `formLoop_raises` from a fresh decoder) -/
+theorem multipartModelRaises : MultipartModelRaises := by
+  constructor
+  · intro bnd mm mp bs sched body e h
+    exact raisable_allowed (Wz.Multipart.formParse_raises h)
+  · intro bnd mm mp cs e h
+    exact raisable_allowed (Wz.Multipart.formLoop_raises cs _ _ e (Wz.Multipart.ds_mkDecoder bnd mm mp)
+      (by intro ho; simp [Wz.Multipart.openS, Wz.Multipart.mkDecoder] at ho) h)
 
 end Wz.Req
